@@ -157,7 +157,7 @@ def rand_history(rng):
 
 
 def gen(ctx):
-    cs = table() + pv.cross_kind_cases() + pv.back_to_back_cases() + pv.raw_chunk_cases() + pv.pad_boundary_cases() + pv.forged_update_cases() + pv.reg_branch_cases()
+    cs = table() + pv.cross_kind_cases() + pv.back_to_back_cases() + pv.raw_chunk_cases() + pv.pad_boundary_cases() + pv.tx_tamper_cases() + pv.forged_update_cases() + pv.reg_branch_cases()
     cs += storeput_cases(ctx.rng, 0) + pv.raw_chunk_storeput_cases()
     n = 300 if ctx.tier == "quick" else 8000
     cs += [rand_history(ctx.rng) for _ in range(n)]
